@@ -1068,6 +1068,7 @@ def gen_segmentation(runner, tier, seed):
            b"GET / HTTP/1.1\nX-Empty:\n\n", b"GET / HTTP/1.1\r\n: novalue\r\n\r\n", b"GET /a b HTTP/1.1\r\n\r\n",
            rpc_call(xid=0x05000000 | r.randrange(1 << 24), vers=2, proc=3, args=struct.pack(">IIII", 100003, 3, 6, 0), tcp=True)
            + rpc_call(xid=0x06000000 | r.randrange(1 << 24), vers=2, proc=0, tcp=True)]
+    nclean = len(reqs)
     reqs = reqs + (odd[:2] + odd[7:8] + r.sample(odd, 2) if tier == "quick" else odd)
     port = 4000
     for qi, req in enumerate(reqs):
@@ -1078,7 +1079,8 @@ def gen_segmentation(runner, tier, seed):
         if tier == "quick":
             plans += [split_at(req, sorted(r.sample(range(1, n), 2))) for _ in range(30)]
         else:
-            plans += [split_at(req, [a, b]) for a in range(1, n) for b in range(a + 1, n)][:4000]   # every 2-cut (bounded)
+            two = [split_at(req, [a, b]) for a in range(1, n) for b in range(a + 1, n)]             # every 2-cut (bounded)
+            plans += two[:4000] if qi < nclean else r.sample(two, min(len(two), 700))
         plans += [[req[i:i + 1] for i in range(n)]]                              # byte by byte
         plans += [split_at(req, sorted(set(r.randrange(1, n) for _ in range(r.randrange(3, 9))))) for _ in range(10 if tier == "quick" else 200)]
         # empty data segments before, inside and after the request (a legal cut: zero bytes)
